@@ -68,7 +68,7 @@ def worker_env():
 # known findings
 # --------------------------------------------------------------------------------------------
 def load_findings():
-    p = os.path.join(VERIF, "known_findings.json")
+    p = os.environ.get("VERIF_KNOWN_FINDINGS") or os.path.join(VERIF, "known_findings.json")   # override: development only
     if not os.path.exists(p):
         return []
     with open(p) as fh:
